@@ -475,6 +475,35 @@ def gen_cases(rng, table):
     return cases
 
 
+def run_assert_flavour(cases, impl):
+    """thorough only: the same descriptions through a harness built with assertions enabled (the CMake build
+    ships NDEBUG): texts and verdicts must not depend on the flavour, and no mir_assert may fire on writer
+    output of well-formed modules"""
+    dbg_flags = [f for f in FLAGS if f != "-DNDEBUG"]
+    exe = ck.cc("c10_harness_dbg", ["harness/c10_harness.c"], flags=dbg_flags)
+    if exe is None:
+        ck.broken_ties.append({"kind": "harness-compile", "name": "c10_harness_dbg", "log": ck.last_cc_log[-1500:]})
+        return
+    desc = [(cid, lines) for (cid, lines, mods, probe) in cases if probe is None and not has_kind(mods, "expr")]
+    def one(chunk):
+        data = "".join("case %s\n%s\nend\n" % (cid, "\n".join(lines)) for (cid, lines) in chunk).encode("latin1")
+        rc, out, err = run_proc([exe, "build"], data)
+        return parse_framed(out)
+    dbg = par(one, batches(desc, 16))
+    diff = 0
+    for (cid, lines) in desc:
+        a, b = impl.get(cid, {}), dbg.get(cid, {})
+        if (a.get("text1"), a.get("scan1"), a.get("text2")) != (b.get("text1"), b.get("scan1"), b.get("text2")):
+            diff += 1
+            if diff <= 3:
+                ck.violation({"input": {"kind": "description", "lines": lines}, "impl_output": b.get("lines"),
+                              "model_output": a.get("lines")},
+                             what="assert-enabled build of the library behaves differently from the NDEBUG build on a "
+                                  "well-formed module: " + str(b.get("crash", b.get("scan1"))),
+                             signature="C10:assert-flavour")
+    ck.stage("assert-flavour", cases=len(desc), differ=diff)
+
+
 def run_generated(rng, table):
     cases = gen_cases(rng, table)
     for (_, _, mods, _) in cases:
@@ -759,6 +788,8 @@ if ck.replay:
 replay_corpus_dir(table)
 tie_float(ck.rng)
 cases, impl = run_generated(ck.rng, table)
+if not QUICK:
+    run_assert_flavour(cases, impl)
 run_freeform(ck.rng, cases, impl)
 run_text_mutants(ck.rng, cases, impl)
 run_corpus(ck.rng)
